@@ -56,7 +56,8 @@ MANIFEST = {
             'total_cpu_count / total_gpu_count and the figures written to '
             'agent_0.cfg are compared with Fraction/ceil arithmetic written '
             'independently.'
-            '  Second session: the resolved config of every cell is compared value by value with the shipped entry overlaid with the schema (computed from the json files); a third of the sizing cases prepare 1-3 earlier pilots of the same bulk with the same resolved config object first, which must leave it unchanged.',
+            '  Second session: the resolved config of every cell is compared value by value with the shipped entry overlaid with the schema (computed from the json files); a third of the sizing cases prepare 1-3 earlier pilots of the same bulk with the same resolved config object first, which must leave it unchanged.'
+            '  After preparing a pilot the shared master configs must be unchanged (resolution-alters-shared-config).',
     'note': 'Session and launcher objects are built with __new__ (no bridges, '
             'no job submission); the matrix part is exhaustive (flag in the '
             'evidence), the sizing part is sampled plus a fixed boundary sweep '
